@@ -3609,3 +3609,124 @@ func callbacksIn(p *Prog, info *types.Info, root ast.Node) []callbackBody {
 	})
 	return out
 }
+
+// recvLiteral finds the composite literal a method value's receiver expression denotes: written in
+// place (`(&T{...}).m`), bound once to a local of the enclosing function (`h := &T{...}; return h.m`),
+// or produced by a constructor whose body is `return &T{...}` (then bind maps the constructor's
+// parameters to the call's arguments).
+func recvLiteral(p *Prog, info *types.Info, recvX ast.Expr, scope ast.Node) (lit *ast.CompositeLit, bind map[types.Object]ast.Expr) {
+	litOf := func(e ast.Expr) *ast.CompositeLit {
+		e = ast.Unparen(e)
+		if u, ok := e.(*ast.UnaryExpr); ok && u.Op == token.AND {
+			e = ast.Unparen(u.X)
+		}
+		cl, _ := e.(*ast.CompositeLit)
+		return cl
+	}
+	var fromExpr func(e ast.Expr, depth int) (*ast.CompositeLit, map[types.Object]ast.Expr)
+	fromExpr = func(e ast.Expr, depth int) (*ast.CompositeLit, map[types.Object]ast.Expr) {
+		if cl := litOf(e); cl != nil {
+			return cl, nil
+		}
+		switch x := ast.Unparen(e).(type) {
+		case *ast.Ident:
+			o := info.Uses[x]
+			if o == nil || scope == nil || depth > 2 {
+				return nil, nil
+			}
+			var rhs ast.Expr
+			n := 0
+			ast.Inspect(scope, func(m ast.Node) bool {
+				switch y := m.(type) {
+				case *ast.AssignStmt:
+					for i, l := range y.Lhs {
+						if id, ok := ast.Unparen(l).(*ast.Ident); ok && (info.Defs[id] == o || info.Uses[id] == o) {
+							n++
+							if len(y.Lhs) == len(y.Rhs) {
+								rhs = y.Rhs[i]
+							}
+						}
+					}
+				case *ast.ValueSpec:
+					for i, id := range y.Names {
+						if info.Defs[id] == o {
+							n++
+							if i < len(y.Values) {
+								rhs = y.Values[i]
+							}
+						}
+					}
+				}
+				return true
+			})
+			if n == 1 && rhs != nil {
+				return fromExpr(rhs, depth+1)
+			}
+		case *ast.CallExpr:
+			fn := staticCallee(info, x)
+			if fn == nil || p == nil {
+				return nil, nil
+			}
+			fd := p.decls().byFunc[fn.Origin()]
+			if fd == nil || fd.Body == nil || p.decls().infoOf[fd] != info || len(fd.Body.List) != 1 {
+				return nil, nil
+			}
+			rs, ok := fd.Body.List[0].(*ast.ReturnStmt)
+			if !ok || len(rs.Results) != 1 {
+				return nil, nil
+			}
+			cl := litOf(rs.Results[0])
+			if cl == nil {
+				return nil, nil
+			}
+			b := map[types.Object]ast.Expr{}
+			for i, po := range paramObjs(info, fd) {
+				if po != nil && i < len(x.Args) {
+					b[po] = x.Args[i]
+				}
+			}
+			if ro := recvObj(info, fd); ro != nil && fd.Recv != nil {
+				if se, ok := ast.Unparen(x.Fun).(*ast.SelectorExpr); ok {
+					b[ro] = se.X
+				}
+			}
+			return cl, b
+		}
+		return nil, nil
+	}
+	return fromExpr(recvX, 0)
+}
+
+// Captured: for a method-value callback, what the receiver field read by e (`recv.f`) was initialised
+// with when the receiver struct was built - the variable the closure form would have captured. The
+// result is an expression in the scope of the function that built the struct; nil if e is not such a
+// read or the struct's construction is not visible.
+func (cb callbackBody) Captured(p *Prog, info *types.Info, e ast.Expr, scope ast.Node) ast.Expr {
+	if cb.Recv == nil || cb.RecvX == nil {
+		return nil
+	}
+	se, ok := ast.Unparen(e).(*ast.SelectorExpr)
+	if !ok || objOfIdent(info, se.X) != cb.Recv {
+		return nil
+	}
+	lit, bind := recvLiteral(p, info, cb.RecvX, scope)
+	if lit == nil {
+		return nil
+	}
+	for _, el := range lit.Elts {
+		kv, ok := el.(*ast.KeyValueExpr)
+		if !ok {
+			continue
+		}
+		if kid, ok := kv.Key.(*ast.Ident); ok && kid.Name == se.Sel.Name {
+			v := kv.Value
+			if o := objOfIdent(info, v); o != nil && bind != nil {
+				if a, has := bind[o]; has {
+					return a
+				}
+			}
+			return v
+		}
+	}
+	return nil
+}
